@@ -439,6 +439,14 @@ def _merge_sparse_by_pair_files(
 
         dst_grp = dst.create_group('sparse_by_pair')
 
+        # (a dataset with no elements cannot be chunked)
+        up_chunks = None
+        if n_up_indices > 0:
+            up_chunks = (min(1000000, n_up_indices),)
+        down_chunks = None
+        if n_down_indices > 0:
+            down_chunks = (min(1000000, n_down_indices),)
+
         dst_grp.create_dataset(
             'up_pair_idx',
             shape=(n_pairs+1,),
@@ -447,7 +455,7 @@ def _merge_sparse_by_pair_files(
             'up_gene_idx',
             shape=(n_up_indices,),
             dtype=gene_idx_dtype,
-            chunks=(min(1000000, n_up_indices),))
+            chunks=up_chunks)
         dst_grp.create_dataset(
             'down_pair_idx',
             shape=(n_pairs+1,),
@@ -456,7 +464,7 @@ def _merge_sparse_by_pair_files(
             'down_gene_idx',
             shape=(n_down_indices,),
             dtype=gene_idx_dtype,
-            chunks=(min(1000000, n_down_indices),))
+            chunks=down_chunks)
 
         col0_values = list(tmp_path_dict.keys())
         col0_values.sort()
